@@ -123,6 +123,8 @@ func treeValue(r Req, variant bool) xpath.Datum {
 		return xpath.NewDatumSliceDatum(lits("", "7"))
 	case "vone":
 		return xpath.NewDatumSliceDatum(lits("0"))
+	case "vnil":
+		return xpath.NewDatumSliceDatum(lits(""))
 	case "vempty":
 		return xpath.NewLiteralDatum("")
 	case "vnum":
